@@ -116,6 +116,14 @@ CLAIMED = {
         note="_matrix_constraint (nested loops) and the SciPy constraint dicts of _build_solver_cache are not yet under proof; NumPy "
              "scalar on the left is outside the class table (bounded)",
         design="6 C10"),
+    "C14": dict(
+        text="For each @lru_cache function found by the decorator scan a memo-soundness lemma is discharged per key-component kind: "
+             "if two keys are equal under the __eq__ methods as written in the source (themselves proved: Variable/Parameter by name, "
+             "interior nodes by identity), a result that met the function's proved contract for one key meets it for the other at "
+             "every later parameter valuation; memo-key hashability (_hash assigned by __init__) is an obligation of the callers.",
+        note="A4 lru_cache semantics; eviction is irrelevant to soundness; known findings D16 (Parameter root through "
+             "_compile_cached), D1",
+        design="6 C14"),
 }
 
 NOT_YET = "check not built yet (work in progress; see DESIGN.md section 6 for the plan)"
